@@ -8,6 +8,7 @@ import (
 	"fmt"
 	"math/rand/v2"
 	"strings"
+	"time"
 
 	"github.com/miekg/dns"
 	"github.com/semihalev/sdns/middleware/blocklist"
@@ -23,6 +24,7 @@ type matchCase struct {
 	Name      string   `json:"name,omitempty"`
 	Qtype     uint16   `json:"qtype,omitempty"`
 	Probes    []string `json:"probes,omitempty"`
+	Ops       []op     `json:"ops,omitempty"` // via=="seq": API calls made (after the start-up refresh) before probing
 }
 
 // genLists draws the entry set of one case, in user spelling.
@@ -37,9 +39,17 @@ func genLists(rng *rand.Rand) (entries, white []string) {
 	if rng.IntN(12) == 0 {
 		ne = 0
 	}
+	wildOnly := rng.IntN(8) == 0 // lists holding ONLY wildcard entries (zero plain entries)
+	if wildOnly && ne == 0 {
+		ne = 1 + rng.IntN(3)
+	}
 	for i := 0; i < ne; i++ {
 		b := pick()
-		switch rng.IntN(7) {
+		k := rng.IntN(7)
+		if wildOnly {
+			k = 3 + rng.IntN(3)
+		}
+		switch k {
 		case 0, 1: // plain apex
 			entries = append(entries, spell(rng, b))
 		case 2: // plain deeper
@@ -283,6 +293,11 @@ func runMatchCase(r *vlib.Run, ci int, via string, entries, white, probes []stri
 	r.Count("match_entries_wildcard", len(ref.Wild))
 	r.Count("match_entries_whitelist", len(ref.White))
 	r.Count("match_lists_via_"+via, 1)
+	if len(ref.Plain) == 0 && len(ref.Wild) > 0 {
+		r.Count("match_lists_wildcard_only", 1)
+		r.Count("wildcard_only_probes_blocked", nb)
+		r.Count("wildcard_only_probes_unblocked", nu)
+	}
 	kinds := 0
 	for _, n := range []int{len(ref.Plain), len(ref.Wild), len(ref.White)} {
 		if n > 0 {
@@ -324,9 +339,119 @@ func matcherDifferential(r *vlib.Run) {
 	}
 }
 
+// wildcardOnlySequences: lists that hold only wildcard entries, reached both
+// directly and through Set(wild…), Set(plain), Remove(plain); every state is
+// probed through Exists AND through the handler with A, AAAA and another type.
+func wildcardOnlySequences(r *vlib.Run) {
+	n := r.N(150, 3000)
+	type wcase struct {
+		ci     int
+		rng    *rand.Rand
+		wilds  []string
+		white  []string
+		plain  string
+		bl     *blocklist.BlockList
+		probes []string
+	}
+	cases := make([]*wcase, 0, n)
+	for ci := 0; ci < n; ci++ {
+		rng := r.RandN("wildseq", ci)
+		c := &wcase{ci: ci, rng: rng}
+		b := randBase(rng)
+		for i := 0; i < 1+rng.IntN(3); i++ {
+			switch rng.IntN(3) {
+			case 0:
+				c.wilds = append(c.wilds, spell(rng, "*."+b))
+			case 1:
+				c.wilds = append(c.wilds, spell(rng, "*."+randLabel(rng)+"."+b))
+			default:
+				c.wilds = append(c.wilds, spell(rng, "*."+randBase(rng)))
+			}
+		}
+		apex := strings.TrimSuffix(strings.TrimPrefix(canon(c.wilds[0]), "*."), ".")
+		switch rng.IntN(4) {
+		case 0:
+			c.plain = spell(rng, apex) // the wildcard's own apex
+		case 1:
+			c.plain = spell(rng, randLabel(rng)+"."+apex) // a name the wildcard already covers
+		case 2:
+			if i := strings.IndexByte(apex, '.'); i >= 0 {
+				c.plain = spell(rng, apex[i+1:]) // a parent of the apex
+			} else {
+				c.plain = spell(rng, "not"+apex)
+			}
+		default:
+			c.plain = spell(rng, randBase(rng))
+		}
+		if rng.IntN(4) == 0 {
+			c.white = []string{spell(rng, randLabel(rng)+"."+apex)}
+		}
+		c.probes = genProbes(rng, append(append([]string{}, c.wilds...), c.plain), c.white)
+		c.bl = newInstance(newDir(true), nil, c.white)
+		cases = append(cases, c)
+	}
+	if !waitRefreshed(90 * time.Second) {
+		r.Inconclusive("start-up refresh did not complete within 90s (wildcard-only sequences)")
+		return
+	}
+	for _, c := range cases {
+		model := listsFrom(nil, c.white)
+		var ops []op
+		do := func(o op) {
+			execOp(c.bl, o)
+			model.apply(o)
+			ops = append(ops, o)
+		}
+		judge := func(state string) {
+			mc := matchCase{Kind: "match", Case: c.ci, Via: "seq", Whitelist: c.white, Ops: append([]op(nil), ops...), Entries: model.entries()}
+			ent, _ := snapshotEntries(c.bl)
+			r.Eval(1)
+			if !sameStrings(ent, model.entries()) {
+				r.Violation("api/sequential-state-differs-from-model", fmt.Sprintf("after %v memory=%v model=%v", ops, ent, model.entries()), mc)
+				return
+			}
+			nb, nu := 0, 0
+			for pi, p := range c.probes {
+				qts := []uint16{dns.TypeA, dns.TypeAAAA, probeTypes[2+(c.ci+pi)%(len(probeTypes)-2)]}
+				if judgeProbe(r, c.bl, model, mc, p, qts) {
+					nb++
+				} else {
+					nu++
+				}
+			}
+			if len(model.Plain) == 0 && len(model.Wild) > 0 {
+				r.Count("wildcard_only_states_served_"+state, 1)
+				r.Count("wildcard_only_probes_blocked", nb)
+				r.Count("wildcard_only_probes_unblocked", nu)
+			}
+		}
+		do(op{Kind: "set", Keys: []string{c.wilds[0]}})
+		if len(c.wilds) > 1 {
+			do(op{Kind: "setbatch", Keys: c.wilds[1:]})
+		}
+		judge("initial")
+		do(op{Kind: "set", Keys: []string{c.plain}})
+		judge("plain-added")
+		do(op{Kind: "remove", Keys: []string{c.plain}})
+		judge("after-plain-removed")
+		r.Count("wildcard_only_sequences", 1)
+	}
+}
+
 func replayMatch(r *vlib.Run, mc matchCase) {
 	ref := listsFrom(mc.Entries, mc.Whitelist)
-	bl := buildInstance(mc.Via, mc.Entries, mc.Whitelist)
+	var bl *blocklist.BlockList
+	if mc.Via == "seq" {
+		bl = newInstance(newDir(true), nil, mc.Whitelist)
+		waitRefreshed(90 * time.Second)
+		ref = listsFrom(nil, mc.Whitelist)
+		for _, o := range mc.Ops {
+			execOp(bl, o)
+			ref.apply(o)
+		}
+	} else {
+		bl = buildInstance(mc.Via, mc.Entries, mc.Whitelist)
+	}
 	names := mc.Probes
 	if mc.Name != "" {
 		names = []string{mc.Name}
